@@ -34,6 +34,8 @@ type facts struct {
 	Named      map[util.Uint256]map[util.Uint160]bool
 	Committee  util.Uint160
 	NotaryKeys keys.PublicKeys
+	OracleHash util.Uint160     // account of the designated oracle nodes (zero: none designated)
+	OracleReq  map[uint64]int64 // pending oracle request id -> GAS reserved for the response
 	Balance    func(util.Uint160) int64
 	Accts      map[util.Uint160]*acct // accounts the harness knows (to judge witnesses)
 }
@@ -131,7 +133,27 @@ func valid(f *facts, c *sCase) (bool, string) {
 				return false, "HighPriority without committee"
 			}
 		case transaction.OracleResponseT:
-			return false, "OracleResponse without oracle role" // no oracle nodes are designated in any state
+			if f.OracleHash == (util.Uint160{}) {
+				return false, "OracleResponse without oracle role"
+			}
+			for _, s := range tx.Signers {
+				if s.Scopes != transaction.None {
+					return false, "OracleResponse signer with a scope"
+				}
+			}
+			if !tx.HasSigner(f.OracleHash) {
+				return false, "OracleResponse not signed by the oracle nodes"
+			}
+			if string(tx.Script) != string(oracleResponseScript()) {
+				return false, "OracleResponse with another script"
+			}
+			g, ok := f.OracleReq[a.Value.(*transaction.OracleResponse).ID]
+			if !ok {
+				return false, "OracleResponse for an unknown request"
+			}
+			if tx.NetworkFee+tx.SystemFee < g {
+				return false, "OracleResponse pays less than the request reserved"
+			}
 		case transaction.NotValidBeforeT:
 			if a.Value.(*transaction.NotValidBefore).Height > f.Height {
 				return false, "NotValidBefore in the future"
@@ -175,6 +197,12 @@ func valid(f *facts, c *sCase) (bool, string) {
 			}
 			if !good {
 				return false, "notary witness signature"
+			}
+			continue
+		}
+		if s.Account == nativehashes.OracleContract {
+			if len(w.VerificationScript) != 0 || len(w.InvocationScript) != 0 || !tx.HasAttribute(transaction.OracleResponseT) {
+				return false, "oracle contract witness"
 			}
 			continue
 		}
@@ -376,6 +404,9 @@ func shapes() []shape {
 		{Name: "poor", Spec: func(n *chainx.Node) *txSpec {
 			return &txSpec{Signers: []*acct{sigAcct(7)}, Script: nops(3), SysFee: gas / 100}
 		}},
+		{Name: "oracle-response", Spec: func(n *chainx.Node) *txSpec {
+			return &txSpec{Signers: []*acct{oracleContractAcct(), oracleNodesAcct()}, Script: oracleResponseScript(), SysFee: sysFeeOracle, Attrs: []transaction.Attribute{attrOracle(0)}}
+		}},
 		{Name: "big", Big: true, Spec: func(n *chainx.Node) *txSpec {
 			return &txSpec{Signers: append([]*acct{sigAcct(1)}, bigSigners()...), Script: nops(transaction.MaxScriptLength), SysFee: gas / 10, Rich: 2}
 		}},
@@ -394,6 +425,7 @@ func knownAccts(n *chainx.Node) map[util.Uint160]*acct {
 	add(committeeAcct(n))
 	add(cheapLoop())
 	add(costlyLoop())
+	add(oracleNodesAcct())
 	for _, a := range bigSigners() {
 		add(a)
 	}
@@ -562,6 +594,69 @@ func mutations(onchain util.Uint256) []mutation {
 		sp.Attrs = []transaction.Attribute{attrNotary(0)}
 		return true
 	}})
+	for _, k := range []uint8{2, 127, 128, 254, 255} {
+		k := k
+		add(mutation{Rule: fmt.Sprintf("attr-notaryassisted-nkeys=%d", k), Spec: func(n *chainx.Node, sp *txSpec) bool {
+			if !hasAttr(sp, transaction.NotaryAssistedT) {
+				return false
+			}
+			sp.Attrs = []transaction.Attribute{attrNotary(k)}
+			return true
+		}})
+	}
+	add(mutation{Rule: "attr-notaryassisted-nkeys=255-netfee-1", Spec: func(n *chainx.Node, sp *txSpec) bool {
+		if !hasAttr(sp, transaction.NotaryAssistedT) {
+			return false
+		}
+		sp.Attrs = []transaction.Attribute{attrNotary(255)}
+		sp.NetDelta = -1
+		return true
+	}})
+	add(mutation{Rule: "attr-notaryassisted-nkeys=255-attribute-fee-unpaid", Spec: func(n *chainx.Node, sp *txSpec) bool {
+		if !hasAttr(sp, transaction.NotaryAssistedT) {
+			return false
+		}
+		fees, err := policyAttrFees(n.BC)
+		if err != nil {
+			return false
+		}
+		sp.Attrs = []transaction.Attribute{attrNotary(255)}
+		sp.NetDelta = -256 * fees[transaction.NotaryAssistedT]
+		return true
+	}})
+	isOracle := func(sp *txSpec) bool { return len(sp.Signers) > 0 && sp.Signers[0].Name == "oracle-contract" }
+	add(mutation{Rule: "oracle-unknown-request-id", Spec: func(n *chainx.Node, sp *txSpec) bool {
+		if !isOracle(sp) {
+			return false
+		}
+		sp.Attrs = []transaction.Attribute{attrOracle(1)}
+		return true
+	}})
+	add(mutation{Rule: "oracle-signer-with-global-scope", Spec: func(n *chainx.Node, sp *txSpec) bool {
+		if !isOracle(sp) {
+			return false
+		}
+		sp.GlobalScopes = true
+		return true
+	}})
+	add(mutation{Rule: "oracle-other-script", Spec: func(n *chainx.Node, sp *txSpec) bool {
+		if !isOracle(sp) {
+			return false
+		}
+		sp.Script = nops(3)
+		return true
+	}})
+	add(mutation{Rule: "oracle-without-nodes-signer", Spec: func(n *chainx.Node, sp *txSpec) bool {
+		if !isOracle(sp) {
+			return false
+		}
+		a := *sigAcct(1)
+		a.NoneScope = true
+		sp.Signers = []*acct{sp.Signers[0], &a}
+		return true
+	}})
+	add(mutation{Rule: "oracle-pays-one-less-than-reserved", Spec: func(n *chainx.Node, sp *txSpec) bool { return isOracle(sp) },
+		Tx: func(n *chainx.Node, tx *transaction.Transaction) { tx.SystemFee-- }})
 	attr("attr-reserved", one(transaction.Attribute{Type: transaction.ReservedLowerBound + 1, Value: &transaction.Reserved{Value: []byte{9, 9}}}))
 	add(mutation{Rule: "notary-signer-without-attribute", Spec: func(n *chainx.Node, sp *txSpec) bool {
 		if !hasAttr(sp, transaction.NotaryAssistedT) {
